@@ -137,9 +137,14 @@ def run_one_group(repo, prop, gname, g, tier, log):
         cmd += ["--cbmc-args"] + g["cbmc_args"]
     env = dict(os.environ, CARGO_NET_OFFLINE="true")
     log("[kani] group %s: %d harness(es)  (%s)" % (gname, len(names), " ".join(cmd[:8]) + " ..."))
+    mem_gb = g.get("mem_gb", 12)
+
+    def _limit():
+        import resource
+        resource.setrlimit(resource.RLIMIT_AS, (mem_gb << 30, mem_gb << 30))
     try:
         p = subprocess.run(cmd, cwd=scratch, env=env, stdout=subprocess.PIPE, stderr=subprocess.STDOUT, text=True,
-                           timeout=g.get("group_timeout", 3600))
+                           timeout=g.get("group_timeout", 3600), preexec_fn=_limit)
         out, rc = p.stdout, p.returncode
     except subprocess.TimeoutExpired as e:
         out, rc = (e.stdout.decode() if isinstance(e.stdout, bytes) else (e.stdout or "")) + "\nGROUP TIMEOUT", -9
